@@ -43,8 +43,24 @@ def rc_ok(tok):
     return tok == "0"
 
 
+def unsupported_alg(exe):
+    """(id, digest length) of an algorithm the SDK defines but this build cannot compute, or None"""
+    outs, _ = vlib.run_lines(exe, ["ALGS"])
+    for tok in (outs[0] or "").split()[1:]:
+        i, n, sup = (int(v) for v in tok.split(":"))
+        if n > 0 and not sup:
+            return (i, n)
+    return None
+
+
 def run_cases(chk, exe, cases):
     lines, exps = [], []
+    UNSUP = unsupported_alg(exe)
+    if UNSUP is None:        # every defined algorithm is computable here: the `unevaluable` branch of the model cannot be realised
+        cases = [d for d in cases if not (d["c"]["t"] == "cal" and any(l["alg"] == 99 for l in d["c"]["links"]))]
+        chk.add(unsupported_algorithm="none in this build: calendar cases with an uncomputable algorithm are not replayed")
+    else:
+        chk.add(unsupported_algorithm="id %d (%d-octet digests)" % UNSUP)
     for d in cases:
         c, x = d["c"], d["x"]
         t = c["t"]
@@ -74,11 +90,11 @@ def run_cases(chk, exe, cases):
             exps.append(("L", [x["ok"], ev(x["term"], env).hex() if x["ok"] else None]))
         elif t == "cal":
             inp = ksi.fake_imprint(c["inAlg"], "calin")
-            sibs = {(None, i): ksi.fake_imprint(l["alg"], "cs%d" % i) for i, l in enumerate(c["links"], 1)}
+            sibs = {(None, i): (bytes([UNSUP[0]]) + bytes([0x11 + i]) * UNSUP[1] if l["alg"] == 99 else ksi.fake_imprint(l["alg"], "cs%d" % i)) for i, l in enumerate(c["links"], 1)}
             env = {"in": {None: inp}, "sib": sibs}
             lines.append("CAL %s %s" % (inp.hex(), " ".join(ksi.tlv(0x07 if l["left"] else 0x08, sibs[(None, i)]).hex()
                                                           for i, l in enumerate(c["links"], 1))))
-            exps.append(("C", [True, ev(x["term"], env).hex()]))
+            exps.append(("C", [True, ev(x["term"], env).hex()] if x["ok"] else [False, None]))
         elif t == "time":
             lines.append("TIMES %d %d" % (c["pub"], c["n"]))
             exps.append(("T", [x[str(v)] for v in range(1 << c["n"])]))
